@@ -59,7 +59,18 @@ def gen_tree(rng, depth, allow_neg=False):
         # a sub-expression that is exactly zero (numerators and denominators of guarded divisions)
         z = gen_lit(rng, allow_suffix=False, allow_sign=False)
         return rng.choice([("lit", "0", 0.0), ("par", ("bin", "-", z, z)), ("bin", "*", ("lit", "0", 0.0), z)])
-    if r < 0.12:
+    if r < 0.09:
+        # a sub-expression that is tiny but NOT zero (a divisor below f64::EPSILON is still a divisor):
+        # a literal with many leading zero decimals, or a cancellation such as (0,1 + 0,2 - 0,3)
+        if rng.random() < 0.5:
+            text = "0," + "0" * rng.randint(14, 20) + str(rng.randint(1, 9))
+            return ("lit", text, float(text.replace(",", ".")))
+        a, b, c = rng.choice([(0.1, 0.2, 0.3), (0.7, 0.1, 0.8), (1.1, 2.2, 3.3), (0.3, 0.6, 0.9)])
+        if (a + b) - c == 0.0:
+            a, b, c = 0.1, 0.2, 0.3
+        la, lb, lc = (("lit", fmt_dec(x), x) for x in (a, b, c))
+        return ("par", ("bin", "-", ("bin", "+", la, lb), lc))
+    if r < 0.14:
         return ("par", gen_tree(rng, depth - 1, allow_neg))
     if allow_neg and r < 0.2:
         return ("neg", rng.choice("+-"), gen_tree(rng, 0 if rng.random() < 0.7 else depth - 1, allow_neg))
@@ -213,7 +224,11 @@ def n_leaves(e):
 CORPUS_V = [("x = 2 3", 5.0), ("x = 2 3 * 4", 14.0), ("x = 2 (3)", 5.0), ("x = 10 -4", 6.0), ("total = 1k 500", 1500.0), ("0 / 0", 0.0),
             ("(3 - 3) / (2 - 2)", 0.0), ("7 + (4 - 2 * 2) / 0 * 3", 7.0), ("x = 1 + 0 / (1 - 1)", 1.0), ("-0 / 0 + 2", 2.0),
             ("y = (1) (2) 3", 6.0), ("5 / (2 - 2) + 1", 1.0), ("12.30 + 1", 1231.0), ("2 * 1.05", 210.0), ("0,25 * 4", 1.0),
-            ("23.59 - 9", 2350.0), ("1,50 * 2", 3.0), ("2k + 3", 2003.0), ("1M - 1", 999999.0), ("x = 1k * 2", 2000.0), ("2k 3", 2003.0)]
+            ("23.59 - 9", 2350.0), ("1,50 * 2", 3.0), ("2k + 3", 2003.0), ("1M - 1", 999999.0), ("x = 1k * 2", 2000.0), ("2k 3", 2003.0),
+            # a divisor that is tiny but not zero divides (only a zero divisor, i.e. an infinite or NaN quotient, gives 0)
+            ("1 / 0,0000000000000001", 1.0 / 0.0000000000000001), ("1 / (0,1 + 0,2 - 0,3)", 1.0 / ((0.1 + 0.2) - 0.3)),
+            ("3 * (2 / 0,00000000000000005) - 1", 3.0 * (2.0 / 0.00000000000000005) - 1.0), ("x = 8/(0,3-0,1-0,2)", 8.0 / ((0.3 - 0.1) - 0.2)),
+            ("5 / (2 - 2)", 0.0), ("1 / 0,001", 1000.0), ("(1 + 2)(3 + 4)", 10.0), ("2 * (3)(4)", 10.0), ("(8 / 2)(-(3))", 1.0)]
 CORPUS = ["1 + 2 * 3", "(1+2)*3", "8 / 4 / 2 + 1", "2 * (3 + 4) * 5", "10 - 4 - 3", "1 / 0 + 5", "3-5", "2*3-5",
           "1 2 3", "2 * 3 4", "1k + 2", "x = 2 * (3 + 4)", "((1 + 2)) * 3", "1,5 * 2", "1.000 + 1",
           "- 5 + 2", "(- 5 + 1) * 2"]
